@@ -141,10 +141,10 @@ def plan(tier, seed):
 
 
 def mandatory(tier):
-    return [f"subject/{s.split('/')[0]}" for s in SUBJECTS] + ["programs", "special/copy", "special/deepcopy", "special/pickle", "typed_results", "plain_results"]
+    return [f"subject/{s.split('/')[0]}" for s in SUBJECTS] + ["programs", "special/copy", "special/deepcopy", "special/pickle", "special/grids/mixed_flags", "special/grids/shared", "typed_results", "plain_results"]
 
 
-def make_subject(kind, D=2):
+def make_subject(kind, D=2, variant="distinct"):
     import torch
     from deepali.core.grid import Axes, Grid
     from deepali.data.flow import FlowField, FlowFields
@@ -154,6 +154,10 @@ def make_subject(kind, D=2):
     N = 3
     C = D if kind.startswith("Flow") else 2
     grids = [Grid(shape=shape, origin=tuple([10.0 * (i + 1)] + [0.0] * (D - 1)), spacing=tuple([1.0 + 0.5 * i] * D)) for i in range(N)]
+    if variant == "mixed_flags":  # equal geometry (Grid.__eq__ is true), only the align_corners flag tells items apart
+        grids = [Grid(shape=shape, origin=tuple([10.0] + [0.0] * (D - 1)), spacing=tuple([1.5] * D), align_corners=bool(i % 2)) for i in range(N)]
+    elif variant == "shared":
+        grids = [grids[0]] * N
     data = torch.stack([torch.full((C,) + shape, float(i)) + 0.01 * torch.arange(C).reshape((C,) + (1,) * D) for i in range(N)])
     carrier = torch.stack([torch.full((C,) + shape, float(2**i)) for i in range(N)])
     if kind == "ImageBatch":
@@ -253,7 +257,12 @@ def single(ctx, kind, name):
     ctx.nontriv(kind, name)
     info = dict(op=name, subject=kind)
     if name in SPECIAL:
+      for variant in (("distinct", "mixed_flags", "shared") if batched else ("distinct",)):
+        if variant != "distinct":
+            x, car, grids, axes = make_subject(kind, D=2, variant=variant)
+            info = dict(op=name, subject=kind, grids=variant)
         ctx.bucket(f"special/{name}")
+        ctx.bucket(f"special/grids/{variant}")
         with ctx.guard(f"{name}", key=f"exc/{name}/{kind.split('/')[0]}", **info):
             if name == "copy":
                 y = pycopy.copy(x)
@@ -269,7 +278,7 @@ def single(ctx, kind, name):
             ctx.true("copy_preserves_grids", same, key=f"{name}/grids", n=len(g1), **info)
             if axes is not None:
                 ctx.true("copy_preserves_axes", getattr(y, "axes", lambda: None)() is axes, key=f"{name}/axes", **info)
-        return
+      return
     fn = ops()[name]
     try:
         cres = replay(name, fn, car)
